@@ -118,6 +118,12 @@ def get_topology(name, seed=0):
         t = dict(TOPOLOGIES[name])
         t['name'] = name
         return t
+    if name.startswith('W:'):
+        _, pa, hx, f = name.split(':')
+        pa, hx, f = float(pa), float(hx), float(f)
+        return dict(name=name, motor=MOTOR_B,
+                    elements=[E('worm', starts=1, J=1e-6, helix=hx, pa=pa), E('wheel', n=30, J=5e-5, helix=hx, pa=pa)],
+                    links=[('joint',), ('worm', f)])
     if name.startswith('S'):
         # 'S<len>_<idx>' seeded
         ln, idx = name[1:].split('_')
